@@ -312,4 +312,46 @@ theorem lexText_err_feed {cfg : Cfg Gen.Cls} {text : List Char} {e : Err}
     (h1 : feedAllWith (handle cfg text) text {} = .error e) : lexText cfg text = .error e := by
   simp [lexText, h1]
 
+/-! ## 3d. characters and codes; plain texts; windows -/
+
+theorem isCh_toNat (c ch : Char) : Spec.isCh c.toNat ch = decide (c = ch) := by
+  simp only [Spec.isCh]
+  by_cases h : c = ch
+  · subst h; simp
+  · have : c.toNat ≠ ch.toNat := fun e => h (Char.toNat_inj.mp e)
+    cases hb : Nat.beq c.toNat ch.toNat with
+    | true => exact absurd (Nat.eq_of_beq_eq_true hb) this
+    | false => simp [h]
+
+/-- `c` is not the first character of any pattern of the pre-pass replacement chain -/
+def Plain (chain : List (List Char × List Char)) (c : Char) : Bool :=
+  chain.all fun pr => match pr.1 with | [] => true | p0 :: _ => p0 != c
+
+theorem untouched_of_plain (chain : List (List Char × List Char)) (t : List Char)
+    (h : ∀ c ∈ t, Plain chain c = true) : Untouched chain t := by
+  intro pr hpr
+  cases hp : pr.1 with
+  | nil => trivial
+  | cons p0 ps =>
+    show p0 ∉ t
+    intro hm
+    have := List.all_eq_true.mp (h p0 hm) pr hpr
+    simp [hp] at this
+
+theorem lex_plain (cfg : Cfg Gen.Cls) (raw : List Char) (h : ∀ c ∈ raw, Plain cfg.preChain c = true) :
+    lex cfg raw = lexText cfg raw := by
+  rw [lex_eq_lexText, Cfg.pre, preWith_noop _ _ (untouched_of_plain _ _ h)]
+
+theorem win_mid (pfx w rest : List Char) (now : Nat) (q : S) (stk : List (List Tok)) :
+    win (pfx ++ w ++ rest) ⟨pfx.length, now, q, stk⟩ (pfx.length + w.length) = w := by
+  simp [win]
+
+theorem win_all (w : List Char) (now : Nat) (q : S) (stk : List (List Tok)) :
+    win w ⟨0, now, q, stk⟩ w.length = w := by
+  simp [win]
+
+theorem win_init (w rest : List Char) (now : Nat) (q : S) (stk : List (List Tok)) :
+    win (w ++ rest) ⟨0, now, q, stk⟩ w.length = w := by
+  simp [win]
+
 end Lex
